@@ -124,7 +124,13 @@ def _inline_site(caller, bi, callee):
     # parameters
     entry = new_blocks[0]
     pre = []
-    for k, a in enumerate(call.get("args") or []):
+    actuals = list(call.get("args") or [])
+    if callee.get("kind") == "closure" and len(actuals) == 2 and actuals[1].get("k") in ("copy", "move"):
+        # `Fn::call(&closure, (a, b))`: the closure's body takes the tuple's elements as its parameters 2, 3, ..
+        tup = actuals[1]["pl"]
+        actuals = [actuals[0]] + [{"k": "move", "pl": {"l": tup["l"], "p": list(tup["p"]) + [{"f": i, "n": "", "t": "", "a": ""}]}}
+                                  for i in range(callee["args"] - 1)]
+    for k, a in enumerate(actuals):
         if k + 1 > callee["args"]:
             break
         pre.append({"k": "assign", "line": line, "exp": False, "pl": {"l": loff + k + 1, "p": []}, "rv": {"k": "use", "ops": [copy.deepcopy(a)]}})
@@ -147,10 +153,29 @@ def _inline_site(caller, bi, callee):
     caller["blocks"][bi]["term"] = {"k": "goto", "line": line, "exp": False, "target": boff}
 
 
+CLOSURE_CALLS = ("std::ops::Fn::call", "std::ops::FnMut::call_mut", "std::ops::FnOnce::call_once")
+
+
+def _called_closures(bodies):
+    """closures that some body calls DIRECTLY (`let reached = |t| n >= t; .. reached(LIMIT)`): local helper closures.  A closure that
+    is only handed to somebody else (unlocked_fair, thread::spawn, a combinator) is not called by a body of this crate."""
+    out = set()
+    for rec in bodies.values():
+        for blk in rec["blocks"]:
+            t = blk["term"]
+            if t["k"] == "call" and t.get("local") and not t.get("dyn") and (t.get("callee") or "").split("<")[0] in CLOSURE_CALLS and \
+                    "{closure" in (t.get("resolved") or "") and len(t.get("args") or []) == 2:
+                out.add(t["resolved"])
+    return out
+
+
 def _candidates(bodies, known):
+    direct = _called_closures(bodies)
+    # (the reviewed tree calls no closure directly, and closure numbers shift when one is added: the known list says nothing
+    # about a closure - being called directly is the criterion)
     return {p for p, r in bodies.items()
-            if p not in known and r.get("kind") in ("fn", "assoc_fn") and "{closure" not in p and "{constant" not in p
-            and len(r["blocks"]) <= MAX_CALLEE_BLOCKS}
+            if "{constant" not in p and len(r["blocks"]) <= MAX_CALLEE_BLOCKS and
+            ((p not in known and r.get("kind") in ("fn", "assoc_fn") and "{closure" not in p) or (r.get("kind") == "closure" and p in direct))}
 
 
 def apply(facts, known=None):
